@@ -59,36 +59,6 @@ theorem c07_turnBased_one_live (h : c07Entry .turnBased n learning g e = true) (
   simp only [c07Entry, hop, ho, hnf, Bool.false_or, Bool.and_eq_true, beq_iff_eq] at h
   exact h.1
 
-/-- what `turnExpect` pins down -/
-theorem turnExpect_shape {learners : List Aid} {g : GSt} {simDone : List Bool} {d : List (Aid × Bool)}
-    (h : turnExpect learners g simDone = some d) :
-    ∃ pre live post, rotAfter learners g.holder = pre ++ live :: post ∧
-      (∀ b ∈ pre, b ∈ g.R ∨ simDone.getD b false = true) ∧
-      live ∉ g.R ∧ simDone.getD live false = false ∧
-      d = ((pre.filter (fun a => decide (a ∉ g.R))).map fun a => (a, true)) ++ [(live, false)] := by
-  unfold turnExpect at h
-  simp only [] at h
-  split at h
-  · cases h
-  · rename_i live post hdw
-    simp only [Option.some.injEq] at h
-    refine ⟨(rotAfter learners g.holder).takeWhile (fun a => decide (a ∈ g.R) || simDone.getD a false),
-      live, post, ?_, ?_, ?_, ?_, h.symm⟩
-    · rw [← hdw, List.takeWhile_append_dropWhile]
-    · intro b hb
-      have hall := List.all_takeWhile (l := rotAfter learners g.holder)
-        (p := fun a => decide (a ∈ g.R) || simDone.getD a false)
-      have := List.all_eq_true.mp hall b hb
-      simpa using this
-    · have := List.head_dropWhile_not (fun a => decide (a ∈ g.R) || simDone.getD a false)
-        (l := rotAfter learners g.holder) (by rw [hdw]; simp)
-      simp only [hdw, List.head_cons, Bool.or_eq_false_iff, decide_eq_false_iff_not] at this
-      exact this.1
-    · have := List.head_dropWhile_not (fun a => decide (a ∈ g.R) || simDone.getD a false)
-        (l := rotAfter learners g.holder) (by rw [hdw]; simp)
-      simp only [hdw, List.head_cons, Bool.or_eq_false_iff, decide_eq_false_iff_not] at this
-      exact this.2
-
 /-- dynamic: a non-final output reports exactly the nominated agents minus those already done -/
 theorem c07_dynamic_reports (h : c07Entry .dynamic n learning g e = true) (hop : e.op = .step acts)
     (ho : e.res = .stepOk o) (hnf : o.allDone = false) :
